@@ -222,6 +222,8 @@ class Ctx:
                 "notes": self.notes,
                 "parameter_renames": sorted(set(r for pr in facts._loaded.values() for r in pr.param_renames)),
                 "new_constants_read_as_their_initialiser": sorted(set("%s in %s" % ce for pr in facts._loaded.values() for ce in getattr(pr, "const_expanded", []))),
+                "operand_order_read_as_reviewed": sorted(set("%s: %s" % ro for pr in facts._loaded.values() for ro in getattr(pr, "reoriented", []))),
+                "new_result_variables_read_as_early_exits": sorted(set("%s: %s (%d blocks duplicated)" % et for pr in facts._loaded.values() for et in getattr(pr, "exits_threaded", []))),
                 "inlined_helpers": sorted(set("%s into %s" % hc for pr in facts._loaded.values() for hc in pr.inlined)),
                 "renamed_private_functions_read_under_reviewed_name": sorted(set("%s as %s" % rn for pr in facts._loaded.values() for rn in getattr(pr, "renamed", []))),
                 "loop_idioms_read_as_calls": sorted(set("%s: %s x%d" % li for pr in facts._loaded.values() for li in getattr(pr, "loop_idioms", []))),
